@@ -28,5 +28,5 @@ Section Zp.
   Definition ZpOps : FieldOps :=
     {| F := Z; f0 := 0; f1 := 1 mod p;
        fadd := zp_add; fmul := zp_mul; fsub := zp_sub; fopp := zp_opp;
-       fdiv := zp_div; finv := zp_inv; feqb := Z.eqb |}.
+       fdiv := zp_div; finv := zp_inv; feqb := Z.eqb; fcmp := Z.compare |}.
 End Zp.
